@@ -199,6 +199,69 @@ def r121(facts, res, cone, cg):
         res.note('R12.1 trusted fact used [%s]: %s' % (k, v))
 
 
+def r125(facts, res, cone, cg):
+    """every unwrap/expect of `S[k..].chars().next()` (a peek at the character under the cursor) is reached only when k < len(S):
+    proved per path with the linear bounds domain A10 from the path's comparisons and three library postconditions"""
+    from lrstep import widening_walker, loop_assigned, is_call, has_call
+    import linarith as LA
+    import c19
+    R = 'R12.5'
+    n = 0
+    for path in sorted(cone):
+        if not in_scanner(path):
+            continue
+        b = cg.bodies[path]
+        if b.from_expansion:
+            continue
+        loops = b.loops()
+        for ub, ut in b.calls_named('unwrap') + b.calls_named('expect'):
+            inl = [h for h in loops if ub in loops[h]]
+            start = min(inl, key=lambda h: len(loops[h])) if inl else 0
+            w = widening_walker(b, facts)
+            w.widen_headers = set(loops) - ({start} if inl else set())
+            w.widen_assigned = {h: loop_assigned(b, h) for h in w.widen_headers}
+            stopb = ut['ret']
+            ps = w.run(start, stop=lambda x: x == stopb or (bool(inl) and x not in loops[start]))
+            ps = [p for p in ps if any(e[0] == 'call' and e[1] == ub for e in p.events)]
+            if not ps:
+                continue
+            e0 = [e for e in ps[0].events if e[0] == 'call' and e[1] == ub][0]
+            arg = strip_ref(e0[3][0])
+            if not (is_call(arg, 'next') and has_call(arg, 'chars')):
+                continue
+            n += 1
+            key = '%s/peek@L%d' % (strip_generics(b.path), len([i for i in res.instances if i['key'].startswith('R12.5:%s/peek' % strip_generics(b.path))]))
+            if w.overflow:
+                res.bad(R, key, loc_of(b, ub), 'path bound exceeded while looking for the guard of this peek')
+                continue
+            why = None
+            for p in ps:
+                e = [e for e in p.events if e[0] == 'call' and e[1] == ub][0]
+                arg = strip_ref(e[3][0])
+                ch = [x for x in subterms(arg) if is_call(x, 'chars')][0]
+                sl = strip_ref(ch[2][0])
+                if not (is_call(sl, 'index') and isinstance(sl[2][1], tuple) and sl[2][1] and sl[2][1][0] == 'variant' and sl[2][1][3] == 'RangeFrom'):
+                    why = 'the text peeked at is not of the form S[k..] (%s)' % fmt_term(sl)[:80]
+                    break
+                base, k = sl[2][0], sl[2][1][4][0]
+                ctx = LA.Ctx()
+                for c, v in p.conds:
+                    c19.cond_facts(ctx, c, v)
+                LA.lib_facts(ctx, [k] + [c for c, v in p.conds])
+                ob = (LA.length_of(base) - LA.lin(k)).plus(-1)
+                ctx.nonneg_atoms(ctx.ge + ctx.ne + [ob])
+                ctx.saturate()
+                if not ctx.proves(ob):
+                    why = 'cannot show that the cursor %s is below the length of the text on the path through blocks %s (facts: %s): at the end of the input next() is None and the unwrap panics' % (
+                        fmt_term(k)[:70], p.blocks[-8:], '; '.join(ctx.why[:4]) or 'none')
+                    break
+            if why:
+                res.bad(R, key, loc_of(b, ub), why, {'function': b.path})
+            else:
+                res.ok(R, key, loc_of(b, ub), 'cursor < len(text) on all %d path(s) to this peek' % len(ps))
+    res.floor(R, 'unwrapped peeks at the character under a cursor', n, 8)
+
+
 def run(facts, res):
     cg = CallGraph(facts, CRATES)
     ents = entries(facts, res, 'cone')
@@ -206,5 +269,6 @@ def run(facts, res):
     # closures of cone functions are part of it
     res.count('cone functions', len(cone))
     r121(facts, res, cone, cg)
+    r125(facts, res, cone, cg)
     r122(facts, res, cone, cg)
     r123(facts, res, cone, cg)
